@@ -100,7 +100,7 @@ impl Stringify for Template {
             stringifier.write_str(r#"="#)?;
             stringifier.write_str_name_quoted(&t.name)?;
             let nodes = &t.content;
-            if nodes.len() > 0 {
+            if !is_children_empty(nodes) {
                 stringifier.write_str(r#">"#)?;
                 write_nodes(nodes, stringifier)?;
                 stringifier.write_token(
